@@ -1,2 +1,232 @@
-//! plonky2 helpers (witness generation with overridden hints, constraint evaluation). Filled in by the
-//! circuit harnesses.
+//! Running real qp-plonky2 circuits on honest *and adversarial* witnesses, through public APIs only.
+//!
+//! * `generate_with_overrides` re-implements `iop::generator::generate_partial_witness` with one change:
+//!   the values a generator produced may be rewritten (by generator id + occurrence index) before they
+//!   are committed to the partition witness. A copy-constraint conflict surfaces as `Err` exactly as
+//!   in the real prover ("set twice with different values").
+//! * `CircuitEval::gate_violations` evaluates every gate's constraints on every row of the resulting
+//!   witness (constants by FFT of the constant polynomials). The real prover does not do this (it
+//!   would emit a proof that fails verification); we need it to classify a witness as accepting.
+//! * `Outcome::Accept(pis)` / `Outcome::Reject` is the observation compared with the Coq model
+//!   (`hon` for honest runs, `chk` for overridden hint streams).
+use anyhow::{anyhow, Result};
+use plonky2::field::types::{Field, PrimeField64};
+use plonky2::hash::hash_types::HashOut;
+use plonky2::iop::generator::GeneratedValues;
+use plonky2::iop::target::Target;
+use plonky2::iop::witness::{PartialWitness, PartitionWitness, Witness, WitnessWrite};
+use plonky2::plonk::circuit_data::CircuitData;
+use plonky2::plonk::config::{GenericConfig, Hasher};
+use plonky2::plonk::vars::EvaluationVarsBaseBatch;
+use std::collections::HashMap;
+pub use zk_circuits_common::circuit::{C, D, F};
+
+/// A rewrite of generator outputs: called as `tweak(generator id, occurrence among same-id generators in
+/// builder order, witness so far, (target, value) pairs about to be committed)`.
+pub type Tweak<'t> = dyn FnMut(&str, usize, &PartitionWitness<F>, &mut Vec<(Target, F)>) + 't;
+
+pub fn no_tweak() -> impl FnMut(&str, usize, &PartitionWitness<F>, &mut Vec<(Target, F)>) {
+    |_: &str, _: usize, _: &PartitionWitness<F>, _: &mut Vec<(Target, F)>| {}
+}
+
+pub struct CircuitEval<'a> {
+    pub data: &'a CircuitData<F, C, D>,
+    /// const_vals[row][j]
+    const_vals: Vec<Vec<F>>,
+    /// occurrence index of each generator among those with the same id
+    occ: Vec<usize>,
+    pub gen_ids: Vec<String>,
+}
+
+#[derive(Clone, Debug, PartialEq, Eq)]
+pub enum Outcome {
+    Accept(Vec<u64>),
+    /// witness generation failed (copy-constraint conflict, generator error)
+    RejectGen(String),
+    /// witness generated but `n` rows violate a gate constraint
+    RejectGate(usize),
+}
+impl Outcome {
+    pub fn accepted(&self) -> bool {
+        matches!(self, Outcome::Accept(_))
+    }
+    /// canonical encoding: [1, pis...] or [0]
+    pub fn enc(&self) -> Vec<i128> {
+        match self {
+            Outcome::Accept(p) => std::iter::once(1i128).chain(p.iter().map(|&x| x as i128)).collect(),
+            _ => vec![0],
+        }
+    }
+}
+
+impl<'a> CircuitEval<'a> {
+    pub fn new(data: &'a CircuitData<F, C, D>) -> Self {
+        let common = &data.common;
+        let po = &data.prover_only;
+        let degree = common.degree();
+        let nconst = common.num_constants;
+        let mut cols: Vec<Vec<F>> = Vec::with_capacity(nconst);
+        for j in 0..nconst {
+            let mut poly = po.constants_sigmas_commitment.polynomials[j].clone();
+            poly.coeffs.truncate(degree);
+            while poly.coeffs.len() < degree {
+                poly.coeffs.push(F::ZERO);
+            }
+            cols.push(poly.fft().values);
+        }
+        let mut const_vals = vec![vec![F::ZERO; nconst]; degree];
+        for j in 0..nconst {
+            for r in 0..degree {
+                const_vals[r][j] = cols[j][r];
+            }
+        }
+        let mut seen: HashMap<String, usize> = HashMap::new();
+        let mut occ = Vec::with_capacity(po.generators.len());
+        let mut gen_ids = Vec::with_capacity(po.generators.len());
+        for g in &po.generators {
+            let id = g.0.id();
+            let e = seen.entry(id.clone()).or_insert(0);
+            occ.push(*e);
+            *e += 1;
+            gen_ids.push(id);
+        }
+        CircuitEval { data, const_vals, occ, gen_ids }
+    }
+
+    /// ordered ids of the hint-allocating generators (fingerprint of the circuit's gadget calls)
+    pub fn hint_fingerprint(&self) -> Vec<String> {
+        self.gen_ids
+            .iter()
+            .filter(|id| id.starts_with("EqualityGenerator") || id.starts_with("LowHighGenerator") || id.starts_with("WireSplitGenerator"))
+            .cloned()
+            .collect()
+    }
+    pub fn count_gen(&self, prefix: &str) -> usize {
+        self.gen_ids.iter().filter(|id| id.starts_with(prefix)).count()
+    }
+
+    pub fn generate_with_overrides(&self, inputs: PartialWitness<F>, tweak: &mut Tweak<'_>) -> Result<PartitionWitness<'a, F>> {
+        let po = &self.data.prover_only;
+        let common = &self.data.common;
+        let generators = &po.generators;
+        let mut w = PartitionWitness::new(common.config.num_wires, common.degree(), &po.representative_map);
+        for (t, v) in inputs.target_values.into_iter() {
+            w.set_target(t, v)?;
+        }
+        let mut pending: Vec<usize> = (0..generators.len()).collect();
+        let mut expired = vec![false; generators.len()];
+        let mut remaining = generators.len();
+        let mut buf = GeneratedValues::empty();
+        while !pending.is_empty() {
+            let mut next = Vec::new();
+            for &gi in &pending {
+                if expired[gi] {
+                    continue;
+                }
+                let finished = generators[gi].0.run(&w, &mut buf);
+                if finished {
+                    expired[gi] = true;
+                    remaining -= 1;
+                }
+                let mut vals: Vec<(Target, F)> = buf.target_values.drain(..).collect();
+                if !vals.is_empty() {
+                    tweak(&self.gen_ids[gi], self.occ[gi], &w, &mut vals);
+                }
+                let mut reps = Vec::with_capacity(vals.len());
+                for (t, v) in vals {
+                    let r = w.set_target_returning_rep(t, v)?;
+                    reps.extend(r);
+                }
+                for r in reps {
+                    if let Some(ws) = po.generator_indices_by_watches.get(&r) {
+                        for &k in ws {
+                            if !expired[k] {
+                                next.push(k);
+                            }
+                        }
+                    }
+                }
+            }
+            pending = next;
+        }
+        if remaining != 0 {
+            return Err(anyhow!("{} generators weren't run", remaining));
+        }
+        Ok(w)
+    }
+
+    /// number of rows on which some gate constraint is non-zero
+    pub fn gate_violations(&self, w: &PartitionWitness<F>) -> usize {
+        let common = &self.data.common;
+        let po = &self.data.prover_only;
+        let degree = common.degree();
+        let num_wires = common.config.num_wires;
+        let pis: Vec<F> = po.public_inputs.iter().map(|&t| w.try_get_target(t).unwrap_or(F::ZERO)).collect();
+        let pih: HashOut<F> = <<C as GenericConfig<D>>::InnerHasher as Hasher<F>>::hash_no_pad(&pis);
+        let mut bad = 0usize;
+        let mut wires = vec![F::ZERO; num_wires];
+        for row in 0..degree {
+            for j in 0..num_wires {
+                wires[j] = w.try_get_target(Target::wire(row, j)).unwrap_or(F::ZERO);
+            }
+            let consts = &self.const_vals[row];
+            let mut row_bad = false;
+            for (i, gate) in common.gates.iter().enumerate() {
+                let sel = common.selectors_info.selector_indices[i];
+                let vars = EvaluationVarsBaseBatch::new(1, consts, &wires, &pih);
+                let r = gate.0.eval_filtered_base_batch(
+                    vars,
+                    i,
+                    sel,
+                    common.selectors_info.groups[sel].clone(),
+                    common.selectors_info.num_selectors(),
+                    common.num_lookup_selectors,
+                );
+                if r.iter().any(|x| !x.is_zero()) {
+                    row_bad = true;
+                    break;
+                }
+            }
+            if row_bad {
+                bad += 1;
+            }
+        }
+        bad
+    }
+
+    pub fn public_inputs(&self, w: &PartitionWitness<F>) -> Vec<u64> {
+        self.data.prover_only.public_inputs.iter().map(|&t| w.try_get_target(t).map(|v| v.to_canonical_u64()).unwrap_or(0)).collect()
+    }
+
+    pub fn run(&self, inputs: PartialWitness<F>, tweak: &mut Tweak<'_>) -> Outcome {
+        match self.generate_with_overrides(inputs, tweak) {
+            Err(e) => Outcome::RejectGen(format!("{e}")),
+            Ok(w) => {
+                let bad = self.gate_violations(&w);
+                if bad > 0 {
+                    Outcome::RejectGate(bad)
+                } else {
+                    Outcome::Accept(self.public_inputs(&w))
+                }
+            }
+        }
+    }
+
+    /// Push an (already generated, possibly adversarial) witness through the real prover and verifier.
+    pub fn prove_and_verify(&self, w: PartitionWitness<'a, F>) -> Result<Vec<u64>> {
+        let mut timing = plonky2::util::timing::TimingTree::default();
+        let proof = plonky2::plonk::prover::prove_with_partition_witness::<F, C, D>(&self.data.prover_only, &self.data.common, w, &mut timing)?;
+        let pis: Vec<u64> = proof.public_inputs.iter().map(|x| x.to_canonical_u64()).collect();
+        self.data.verify(proof)?;
+        Ok(pis)
+    }
+}
+
+pub fn pw_set(pw: &mut PartialWitness<F>, t: Target, v: u64) {
+    // from_noncanonical keeps the harness free to hand in any u64; values are reduced mod p
+    pw.set_target(t, F::from_noncanonical_u64(v)).expect("duplicate input assignment");
+}
+
+pub fn f(v: u64) -> F {
+    F::from_noncanonical_u64(v)
+}
